@@ -1,4 +1,4 @@
-\* C20 design model, selection variant "isreal"
+\* C20 design model, selection "isreal", get_Vm memoised with key (T, P, a, b): must pass
 SPECIFICATION Spec
 CONSTANTS
   RootVals <- MCRoots
@@ -7,7 +7,7 @@ CONSTANTS
   Pressures <- MCPressures
   Amounts <- MCAmounts
   IdealRTs <- MCIdealRTs
-  Memo = "none"
+  Memo = "state_and_params"
   Variant = "isreal"
 INVARIANT OnEquation
 INVARIANT OracleMatches
